@@ -1,3 +1,18 @@
 fn main() {
     println!("cargo:rerun-if-changed=build.rs");
+    println!("cargo:rerun-if-changed=cref/aseprite_blend.cc");
+    cc::Build::new()
+        .cpp(true)
+        .compiler("clang++")
+        .file("cref/aseprite_blend.cc")
+        .flag("-std=c++17")
+        .flag("-O1")
+        .flag("-ffp-contract=off")
+        .flag("-fno-fast-math")
+        .flag("-Wno-unused-function")
+        .flag("-Wno-unused-parameter")
+        .flag("-Wno-sign-compare")
+        .flag("-Wno-unused-const-variable")
+        .cpp_link_stdlib(None)
+        .compile("aseprite_blend");
 }
